@@ -190,6 +190,29 @@ def r4_enter_wakes(r, facts):
     r.floor(1)
 
 
+def r4b_poll_wakes(r, facts):
+    """every successful return of Completions::poll (Ring::poll) has given futures blocked on queue space a
+    chance: a call of wake_blocked_futures lies on every path to `Ok(())` — directly in poll, or through a
+    callee all of whose Ok-returning paths call it"""
+    f = facts.fn('io_uring::cq::Completions::poll')
+    e = facts.fn(ENTER)
+    # does every Ok return of enter wake?
+    oks = [loc for loc, s in e.assigns() if s['lhs']['l'] == 0 and s['rv']['k'] == 'agg' and s['rv'].get('variant') == 'Ok']
+    wl = [l for l, _ in e.calls_to(WBF)]
+    enter_always = all(e.forward_paths_hit([], [o], blockers=wl, arm_at=Loc(0, 0)) is None for o in oks) and bool(oks)
+    r.inst('Shared::enter wakes on every Ok return: %s' % enter_always, e.where())
+    wakes = [l for l, _ in f.calls_to(WBF)]
+    if enter_always:
+        wakes += [l for l, _ in f.calls_to(ENTER)]
+    okret = [loc for loc, s in f.assigns() if s['lhs']['l'] == 0 and s['rv']['k'] == 'agg' and s['rv'].get('variant') == 'Ok']
+    r.require(bool(okret), 'Completions::poll/ok', 'Ok return of Completions::poll not found', f.where())
+    for o in okret:
+        hit = f.forward_paths_hit([Loc(0, 0)], [o], blockers=wakes)
+        r.inst('Ok return of Completions::poll', f.where(o))
+        r.require(hit is None, 'Completions::poll/ok-without-wake', 'a Ring::poll call can return successfully without waking futures that wait for submission-queue space (it found completions already queued, or its enter timed out): with more waiters than free slots, or a kernel-thread ring, a waiter stays parked although room is available and nothing else completes', f.where(o))
+    r.floor(2)
+
+
 def r5_conservation(r, facts):
     f = facts.fn(WBF)
     eb = ExprBuilder(f)
@@ -287,5 +310,6 @@ def check(ctx):
     ctx.run('C03.R2', 'LIFE-6: submission, waker and Running published in one lock region', life.life6)
     ctx.run('C03.R3', 'hand-over: update takes the waker on the ready edge and returns Wake; process wakes it', r3_handover)
     ctx.run('C03.R4', 'Shared::enter wakes futures blocked on queue space on the Ok edge', r4_enter_wakes)
+    ctx.run('C03.R4b', 'every successful Ring::poll gives queue-space waiters a wake-up chance', r4b_poll_wakes)
     ctx.run('C03.R5', 'wake_blocked_futures conserves wakers (woken or re-queued; loops exit only on exhaustion)', r5_conservation)
     ctx.run('C03.R6', 'register-then-recheck on the QueueFull path', r6_recheck)
